@@ -164,12 +164,14 @@ def search(rep: C.Report, tier: str, broken):
                 clean()
     # finite differences -> spectral as the spatial grid is refined, each background ingredient separately
     Ms = (10, 20, 40) if tier == "quick" else (10, 20, 40, 80)
-    for kind, kw in kinds.items():
+    for kind, kw in list(kinds.items()) + [("all, two species", kinds["all"]), ("field, three species", kinds["field"])]:
+        nsp = 1 if "species" not in kind else (2 if "two" in kind else 3)
         errs = []
         for M in Ms:
             out = []
             for deriv in ("Spectral", "Finite Difference"):
-                solver, grid, parts, clean = B.make_solver(M=M, N=5, basisM="Cardinal", basisN="Cardinal", derivatives=deriv, seed=3)
+                solver, grid, parts, clean = B.make_solver(M=M, N=5, basisM="Cardinal", basisN="Cardinal", derivatives=deriv, seed=3, nparticles=nsp,
+                                                           stats=("Fermion", "Boson"), y2=(0.3, 1.1, 0.05), dofs=(12, 6, 2))
                 try:
                     solver.setBackground(B.background(grid, **kw))
                     op, src, liou, _ = solver.buildLinearEquations()
